@@ -2249,7 +2249,12 @@ def convert_squared_difference(op, arch, nng):
         op.type = Op.Mul
         # Use explicit scaling for the shift (multiplier not actually used for int32, but value can not be empty)
         op.explicit_scaling = ExplicitScaling(False, [output_shift], [output_multiplier])
+        # The operator keeps the OFM shape it had: it differs from the shape of its OFM tensor when a RESHAPE behind the
+        # operator has already been bypassed (set_ifm_ofm_shapes() recomputes the shapes from the tensors)
+        ofm_shape = op.ofm_shapes[0] if op.ofm_shapes else None
         op.set_ifm_ofm_shapes()
+        if ofm_shape is not None:
+            op.ofm_shapes[0] = ofm_shape
         DebugDatabase.add_optimised(op, op)
 
     return op
